@@ -123,6 +123,12 @@ def make_cases(rng, tier):
                     if params[0] == "f32" and cls in ("int", "uint", "float") and not f32_exact(v):
                         continue        # declared domain: float32 targets only for exactly representable values (as for fields)
                     add(block([], ("expr", emath(matom(acall(call("func", fn, [("var", "src")])))))), [inj_func(fn), inj_val("src", v)])
+    # unsigned arguments at and above 2^63 (exactly representable as floats) handed to float parameters, and to every integer kind
+    for z in (2 ** 63, 3 * 2 ** 62, 2 ** 63 + 2048, 2 ** 64 - 2048):
+        for fn in ("IdF64", "IdU64", "IdI64", "IdU", "IdU8") + (("IdF32",) if z in (2 ** 63, 3 * 2 ** 62) else ()):
+            add(block([], ("expr", emath(matom(acall(call("func", fn, [("var", "src")])))))), [inj_func(fn), inj_val("src", tv_int("u64", z))])
+        add(block([], ("expr", emath(matom(acall(call("func", "Two", [("var", "a"), ("var", "b")])))))), [inj_func("Two"), inj_val("a", tv_int("u8", 9)), inj_val("b", tv_int("u64", z))])
+        add(block([scall(call("method", "h.IdF64", [("var", "src")]))]), [host(), inj_val("src", tv_int("u", z))])
     add(block([], ("expr", emath(matom(acall(call("func", "Two", [("var", "a"), ("var", "b")])))))), [inj_func("Two"), inj_val("a", tv_int("u8", 9)), inj_val("b", tv_int("i32", -4))])
     add(block([], ("expr", emath(matom(acall(call("func", "Mix3", [("const", kint(300)), ("const", kstr("x")), ("const", kreal("2.0"))])))))), [inj_func("Mix3")])
     add(block([], ("expr", emath(matom(acall(call("func", "Two", [("var", "a")])))))), [inj_func("Two"), inj_val("a", tv_int("u8", 9))])
@@ -184,7 +190,7 @@ def nontrivial(c, o):
 
 RULE = ("systematic: writes `target = src` for every target in 16 struct-field paths (one and two levels, by value and by pointer) x 5 source classes x source values (boundaries of every width); pointer-injected scalars of all 14 kinds x source classes; "
         "maps with string / int64 / variable keys, slices and arrays with literal / variable indexes, injected directly and by pointer, over 8 (thorough 14) element kinds; key coercion and out-of-range / negative / string indexes; container fields of a struct; "
-        "calls of every catalogue function with every argument class, arity faults, missing functions, panicking functions, methods and three-level calls; shadowing of injected names; reads of missing names / fields; random programs; three driver-stated scenarios in which the host injects an object / a function under a name the rule has already bound as a local (method, three-level and function calls must then reach the injected one); every third text executed a second time after fresh objects were re-injected under the same names into the same data context; "
+        "calls of every catalogue function with every argument class, arity faults, missing functions, panicking functions, methods and three-level calls; shadowing of injected names; reads of missing names / fields; random programs; six driver-stated scenarios in which the host injects an object / a function / a key under a name the rule has already bound as a local (method, three-level and function calls must then reach the injected one; m[k] and m[k] += 1 must use the injected k); every third text executed a second time after fresh objects were re-injected under the same names into the same data context; "
         "compared: returned value, recorded calls with the dynamic types of the received arguments, and the WHOLE host store afterwards (so untouched data is checked too); distinct non-trivial = distinct (target path, source kind, container kinds) whose run succeeded")
 
 
@@ -201,6 +207,15 @@ def publish_scenarios():
                 {"class": "ok", "seq": [["NewC"], ["CAdd", "1", "1"], ["Publish"], ["CAdd", "2", "10"], ["CAdd", "22", "20"]]}))
     b2 = block([assign(("var", "fn"), "=", ("math", matom(acall(call("func", "NewF", []))))), fcall("Publish"), fcall("fn", [("const", kint(5))])])
     out.append(("function-call-after-the-host-injected-the-name", b2, [inj_func("NewF"), inj_func("Publish")], {"class": "ok", "seq": [["NewF"], ["Publish"], ["HostF", "5"]]}))
+    # the VARIABLE KEY of an element access is resolved like any other name: once the host has injected `k`, m[k] means the injected k
+    mpk = lambda: inj_map("mp", "i64", "i64", [(tv_int("i64", 1), tv_int("i64", 10)), (tv_int("i64", 2), tv_int("i64", 20))])
+    sqk = lambda: inj_seq("sq", "i64", [tv_int("i64", 7), tv_int("i64", 8), tv_int("i64", 9)])
+    rdk = lambda nm: ("expr", emath(matom(amap(mapvar(nm, ("var", "k"))))))
+    for nm, inj, want in (("mp", mpk, 20), ("sq", sqk, 9)):
+        bk = block([assign(("var", "k"), "=", ("math", mint(1))), fcall("Publish")], rdk(nm))
+        out.append(("variable-key-after-the-host-injected-the-key-name-" + nm, bk, [inj(), inj_func("Publish")], {"class": "ok", "ret": want}))
+    bw = block([assign(("var", "k"), "=", ("math", mint(1))), fcall("Publish"), assign(("map", mapvar("mp", ("var", "k"))), "+=", ("math", mint(1)))], rdk("mp"))
+    out.append(("compound-assignment-through-a-variable-key-after-the-host-injected-the-key-name", bw, [mpk(), inj_func("Publish")], {"class": "ok", "ret": 21}))
     b3 = block([assign(("var", "acc"), "=", ("math", matom(acall(call("func", "NewC", []))))), scall(call("method", "acc.Add", [("const", kint(1))])), scall(call("three", "acc.In.Add", [("const", kint(2))]))])
     out.append(("calls-on-a-local-object", b3, [inj_func("NewC")], {"class": "ok", "seq": [["NewC"], ["CAdd", "1", "1"], ["CAdd", "11", "2"]]}))
     return out
